@@ -101,7 +101,7 @@ def integ_fix(check, proj):
         try:
             ai, outs = run_step(proj, c, 2)
         except AnalysisError as e:
-            check.undecided("INTEG-FIX", q, "abstract interpretation failed: %s" % e, stepf.loc())
+            check.failed("INTEG-FIX", q, e, stepf.loc(), "abstract interpretation failed")
             continue
         bad = None
         for o in outs:
